@@ -5,6 +5,8 @@
 set -u
 SEED="$(realpath "$1")"; CRATE="$2"; DEMO="$3"; DEST="${4:-crates/$CRATE/tests/$DEMO}"
 WT=/tmp/wt/confirm
+mkdir -p /tmp/wt; while ! mkdir /tmp/wt/confirm.lock 2>/dev/null; do sleep 5; done
+trap 'rmdir /tmp/wt/confirm.lock' EXIT
 export CARGO_TARGET_DIR=/tmp/wt/confirm-target CARGO_NET_OFFLINE=true
 if [ ! -d "$WT" ]; then git -C /repo worktree add -q --detach "$WT" HEAD || exit 2; fi
 cd "$WT" && git checkout -q --detach "$(git -C /repo rev-parse HEAD)" && git checkout -q -- . && git clean -fdq -e target
